@@ -12,6 +12,18 @@ CHECKS = {
         text="Every derivation of the metamodel grammar with <=k deviations from the minimal and maximal value of every structure, alias and envelope root is structured and re-serialised by the real converter; the output must be a normal form of the input under some strict reading. Exhaustive within the stated k and alphabets.",
         note="Trusted: MM reference semantics (lspverif/mm.py), alphabets of DESIGN 2.2, compositionality of converters (deviation bound per root).",
         ref="3/C01"),
+    "C03": dict(
+        engine="VSE",
+        technique="bounded exhaustive enumeration of metamodel derivations, each structured by the real converter and the whole object graph walked against annotations and metamodel",
+        text="Every derivation (<=k deviations, both base points) of every root is structured; the returned object graph is walked attribute by attribute against the resolved attrs annotations and, in lock-step with the input, against the metamodel (at unions: instance of an alternative valid for the input; LSPAny positions unchanged).",
+        note="Trusted: MM, alphabets, compositionality; values that fail to structure belong to C01.",
+        ref="3/C03"),
+    "C14": dict(
+        engine="VSE",
+        technique="exhaustive enumeration of union sites x alternatives x bounded shapes, each embedded in its owner root and structured by the real converter",
+        text="All union occurrences of the metamodel (declared or-types and references to or-aliases) x every alternative x {cost<=k neighbourhood, maximal value, ordered pairs for arrays}; each must structure without error into an instance of an alternative valid for the value; a (site, alternative) without execution fails as vacuous.",
+        note="Trusted: MM; unions of partialResult/registrationOptions/errorData have no generated class to structure into and are listed in the evidence.",
+        ref="3/C14"),
 }
 
 PENDING_REASON = "check not built yet in this session (planned, see DESIGN.md section 3); not claimed until it exists"
@@ -65,7 +77,7 @@ NOT_APPLICABLE = {}
 
 ENGINES = [
     {"name": "MM", "path": "lspverif/mm.py", "serves_properties": [], "kind_free_text": "reference model of the LSP metamodel (oracle)"},
-    {"name": "VSE", "path": "lspverif/vse.py", "serves_properties": ["C01"], "kind_free_text": "deviation-bounded exhaustive value-space explorer over the metamodel grammar"},
+    {"name": "VSE", "path": "lspverif/vse.py", "serves_properties": ["C01", "C03", "C14"], "kind_free_text": "deviation-bounded exhaustive value-space explorer over the metamodel grammar"},
 ]
 
 if __name__ == "__main__":
